@@ -88,6 +88,10 @@ func handleZADD(params internal.HandlerFuncParams) ([]byte, error) {
 					Score: Score(s),
 				})
 			}
+			// Anything else is not a score: fail instead of silently dropping the pair.
+			if !slices.Contains([]string{"-inf", "+inf"}, strings.ToLower(score.(string))) {
+				return nil, errors.New("invalid score in score/member list")
+			}
 		case float64:
 			s, _ := score.(float64)
 			members = append(members, MemberParam{
@@ -159,13 +163,24 @@ func handleZADD(params internal.HandlerFuncParams) ([]byte, error) {
 		return []byte(fmt.Sprintf(":%d\r\n", count)), nil
 	}
 
-	// Key does not exist.
-	set := NewSortedSet(members)
-	if err = params.SetValues(params.Context, map[string]interface{}{key: set}); err != nil {
+	// Key does not exist: apply the same flags to an empty sorted set.
+	set := NewSortedSet([]MemberParam{})
+	count, err := set.AddOrUpdate(members, updatePolicy, comparison, changed, incr)
+	if err != nil {
 		return nil, err
 	}
+	if set.Cardinality() > 0 {
+		if err = params.SetValues(params.Context, map[string]interface{}{key: set}); err != nil {
+			return nil, err
+		}
+	}
+	// If INCR option is provided, return the new score value
+	if incr != nil && set.Contains(members[0].Value) {
+		m := set.Get(members[0].Value)
+		return []byte(fmt.Sprintf("+%f\r\n", m.Score)), nil
+	}
 
-	return []byte(fmt.Sprintf(":%d\r\n", set.Cardinality())), nil
+	return []byte(fmt.Sprintf(":%d\r\n", count)), nil
 }
 
 func handleZCARD(params internal.HandlerFuncParams) ([]byte, error) {
